@@ -89,6 +89,8 @@ pub struct Ctx {
 
 static CTX: OnceLock<Ctx> = OnceLock::new();
 static HANG_IS_VIOLATION: AtomicBool = AtomicBool::new(false);
+/// longest wall time of a single case in this run (evidence: shows the margin of the watchdog)
+static MAX_CASE_US: AtomicUsize = AtomicUsize::new(0);
 
 /// Declare that, for this property, a CPU-bound hang of a case is a violation (see `Ctx::hang`).
 pub fn set_hang_is_violation(on: bool) {
@@ -328,6 +330,8 @@ impl Ctx {
         coverage.insert("known_findings_hit".into(), json!(i.known_hits));
         coverage.insert("violation_signatures".into(), Value::Array(vio_list));
         coverage.insert("threads".into(), json!(self.threads));
+        coverage.insert("max_case_wall_ms".into(), json!(MAX_CASE_US.load(Ordering::Relaxed) as f64 / 1000.0));
+        coverage.insert("hang_is_violation".into(), json!(HANG_IS_VIOLATION.load(Ordering::SeqCst)));
         coverage.insert("stopped_by_time_budget".into(), json!(self.out_of_time()));
         for (k, v) in i.extra.iter() {
             coverage.insert(k.clone(), v.clone());
@@ -542,7 +546,10 @@ where
                     }
                     *w.cur.lock().unwrap() = Some((i as u64, Instant::now()));
                     let mut rng = Rng::for_case(c.seed, c.prop, family, i as u64);
-                    if let Err(e) = guarded(|| f(&mut rng, i as u64)) {
+                    let t_case = Instant::now();
+                    let res = guarded(|| f(&mut rng, i as u64));
+                    MAX_CASE_US.fetch_max(t_case.elapsed().as_micros() as usize, Ordering::Relaxed);
+                    if let Err(e) = res {
                         match e {
                             Caught::Oracle(m) => c.inconclusive("oracle-error", json!({"family": family, "index": i, "msg": m})),
                             other => c.harness_error(&format!("monitor panicked in {family}#{i}: {}", other.text())),
